@@ -65,10 +65,11 @@ def C01(ctx):
     T.c09_t2(ctx, f)
     x("c02_r3", ctx, f)
     x("c01_r4", ctx, f)
-    G.prepare(ctx, f, {"blank", "format", "masks"})
+    G.prepare(ctx, f, {"blank", "format", "masks", "place"})
     G.c03_r3(ctx, f)
     G.c04_r3(ctx, f)
     G.c08_r4(ctx, f)
+    G.c01_r5(ctx, f)
     return dict(
         level="other",
         explanation="Round-trip equality over all payloads is not decided as a whole. Decided, for all 3 840 configuration cells at "
@@ -196,7 +197,9 @@ def C08(ctx):
     tbl = T.c08_dispatch(ctx, f)
     T.c08_t1(ctx, f, tbl)
     R.c04_r1(ctx, f)
+    G.prepare(ctx, f, {"blank", "format", "masks"})
     x("c08_r4", ctx, f, tbl)
+    G.c04_r3(ctx, f, rid="C08.R5", only_outside=True)
     return dict(
         level="other",
         explanation="Every toggle/set of a module outside blank-symbol construction is guarded by module_type()==Data on the same "
